@@ -432,6 +432,53 @@ func safeDecrypt(priv, sealed string) (out string, err error, pan string) {
 	return
 }
 
+// blindSweep alters every byte of a sealed value without knowing its layout.
+func blindSweep(priv string, right bool, text string, orig []byte) (string, int) {
+	n := 0
+	try := func(raw []byte, what string) string {
+		n++
+		out, err, pan := safeDecrypt(priv, base64.StdEncoding.EncodeToString(raw))
+		if pan != "" {
+			return fmt.Sprintf("Decrypt PANIC %s after %s", pan, what)
+		}
+		if err == nil && out != text {
+			return fmt.Sprintf("Decrypt returned a DIFFERENT text %q (hex %s) without error after %s; original %q", out, hex.EncodeToString([]byte(out)), what, text)
+		}
+		return ""
+	}
+	if right {
+		if out, err, _ := safeDecrypt(priv, base64.StdEncoding.EncodeToString(orig)); err != nil || out != text {
+			return fmt.Sprintf("round trip: untouched sealed value gives %q, %v; original %q", out, err, text), 1
+		}
+	}
+	for i := range orig {
+		for _, m := range []byte{0x01, 0x80, 0xff} {
+			raw := append([]byte{}, orig...)
+			raw[i] ^= m
+			if d := try(raw, fmt.Sprintf("flipping byte %d with mask %02x", i, m)); d != "" {
+				return d, n
+			}
+		}
+		for v := byte(0); v < 4; v++ {
+			if orig[i] == v {
+				continue
+			}
+			raw := append([]byte{}, orig...)
+			raw[i] = v
+			if d := try(raw, fmt.Sprintf("setting byte %d to %d", i, v)); d != "" {
+				return d, n
+			}
+		}
+		if d := try(append([]byte{}, orig[:i]...), fmt.Sprintf("truncating to %d bytes", i)); d != "" {
+			return d, n
+		}
+	}
+	if d := try(append(append([]byte{}, orig...), 0), "appending a zero byte"); d != "" {
+		return d, n
+	}
+	return "", n
+}
+
 func stageC20Seal(raw json.RawMessage) Result {
 	var c sealCase
 	if err := json.Unmarshal(raw, &c); err != nil {
@@ -461,7 +508,19 @@ func stageC20Seal(raw json.RawMessage) Result {
 		}
 		lay := layout{n: len(orig), rsaLen: c.Bits / 8, tagLen: c.TagLen, parts: c.Parts}
 		if len(orig) != 3+lay.rsaLen+len(text)+lay.tagLen || orig[0] != 1 || int(binary.BigEndian.Uint16(orig[1:])) != lay.rsaLen {
-			return fail("layout: envelope differs from the model: %d bytes, header %x, text %d bytes, key %d bits", len(orig), orig[:3], len(text), c.Bits)
+			// The envelope is not laid out as Seal.tla assumes (the property does not prescribe a layout): the
+			// region-wise schedule cannot be applied, so every byte position is altered blindly instead -
+			// flips with masks 01 / 80 / ff, every small value, every truncation, one appended byte - and the
+			// law is the same: rejected, or the original text.
+			for _, priv := range privs {
+				d, n := blindSweep(priv, c.Key == "right", text, orig)
+				evals += n
+				if d != "" {
+					return fail("%s (envelope of %d bytes, header %x, not the layout of the model)", d, len(orig), orig[:3])
+				}
+			}
+			skipped++
+			continue
 		}
 		cur := []variant{{raw: orig, desc: ""}}
 		for i, st := range c.Sched {
